@@ -405,7 +405,10 @@ impl FileSpec {
                 if stem.len() <= infix_start {
                     return false;
                 }
-                let maybe_infix = &stem[infix_start..];
+                // a foreign file name can continue with a multi-byte character
+                let Some(maybe_infix) = stem.get(infix_start..) else {
+                    return false;
+                };
                 let end = maybe_infix.find('.').unwrap_or(maybe_infix.len());
                 infix_filter.filter_infix(&maybe_infix[..end])
             })
